@@ -57,6 +57,7 @@ func runC06(r *Report) {
 	r.Rule("C06/codec-recognised", "marshalJSONInnerBody / unmarshalJSONInnerBody of every object type are recognised completely")
 	r.Rule("C06/json-typestate", "separator discipline: embedded members only where nothing was emitted before; forced comma only after a member type that always emits")
 	r.Rule("C06/json-quoting", "constant keys are JSON-safe; non-constant keys (additionalProperties) pass through a JSON quoting function")
+	r.Rule("C06/oneof-arms", "every discriminator value the schema maps (explicitly or by schema name) has a decoding arm, so every value the encoder can emit for a variant can be decoded back")
 	r.Rule("C06/codec-agreement", "writer key table = reader key table (key, field, required/optional, IsSet, null, embedded order, additionalProperties)")
 	r.Assumptions = append(r.Assumptions,
 		"NOT decided: equality of values after a round trip (number formatting, time zones, RawMessage normalisation, nil vs empty collections) and everything delegated to encoding/json",
@@ -260,6 +261,10 @@ func runC06(r *Report) {
 			}
 		}
 	}
+	for _, jp := range progs {
+		w := &shapeWalker{r: r, s3: s3, jp: jp, mode: "C06", seen: map[string]bool{}}
+		w.roots()
+	}
 	r.Analysed["object_codecs"] = nObj
 	r.FloorMin("object codecs analysed", nObj, 60)
 }
@@ -268,12 +273,12 @@ func runC06(r *Report) {
 // schema ↔ Go type walk (shared by C07 and C08)
 
 type shapeWalker struct {
-	r      *Report
-	s3     *S3
-	jp     *jsonProgram
-	mode   string // "C07" | "C08"
-	seen   map[string]bool
-	nPos   int
+	r    *Report
+	s3   *S3
+	jp   *jsonProgram
+	mode string // "C07" | "C08"
+	seen map[string]bool
+	nPos int
 }
 
 func isCustom(s *openapi3.Schema) bool { return s != nil && extString(s, "x-goag-go-type") != "" }
@@ -299,11 +304,11 @@ func unwrapWrappers(t types.Type) (inner types.Type, maybe, nullable bool) {
 
 // effectiveObject merges allOf inline members; returns own+inline properties, required set, embedded refs (in order), additional.
 type objShape struct {
-	props    map[string]*openapi3.SchemaRef
-	required map[string]bool
-	embedded []*openapi3.SchemaRef
+	props      map[string]*openapi3.SchemaRef
+	required   map[string]bool
+	embedded   []*openapi3.SchemaRef
 	additional bool
-	addSchema *openapi3.SchemaRef
+	addSchema  *openapi3.SchemaRef
 }
 
 func effectiveObject(s *openapi3.Schema) objShape {
@@ -354,7 +359,8 @@ func (w *shapeWalker) visit(t types.Type, sr *openapi3.SchemaRef, where string) 
 	if isCustom(s) {
 		return
 	}
-	if nullableWrap != s.Nullable && w.mode == "C07" {
+	atRoot := strings.HasPrefix(where, "components.schemas.") && !strings.ContainsAny(strings.TrimPrefix(where, "components.schemas."), ".[")
+	if nullableWrap != s.Nullable && w.mode == "C07" && !atRoot {
 		// a Nullable wrapper where the schema is not nullable (or the reverse)
 		w.r.Violation(w.rule("shape"), key+":nullable", "", fmt.Sprintf("schema nullable=%v but the Go type %s nullable-wrapper=%v: null could be written where the schema forbids it (or cannot be where it allows it)", s.Nullable, t.String(), nullableWrap))
 	}
@@ -372,6 +378,11 @@ func (w *shapeWalker) visit(t types.Type, sr *openapi3.SchemaRef, where string) 
 		if elem == nil {
 			w.r.Violation(w.rule("shape"), key, "", "schema is an array but the Go type "+inner.String()+" is not a slice")
 			return
+		}
+		if n, ok := types.Unalias(inner).(*types.Named); ok && w.mode == "C07" && !s.Nullable {
+			if why := arrayComponentProblem(p, n); why != "" {
+				w.r.Violation(w.rule("shape"), key+":array component", "", why)
+			}
 		}
 		w.visit(elem, s.Items, where+"[]")
 	case s.Type == "":
@@ -391,6 +402,9 @@ func (w *shapeWalker) object(t types.Type, s *openapi3.Schema, key, where string
 	p := w.jp.P
 	rule0 := w.rule(map[string]string{"C07": "shape", "C08": "reader-table"}[w.mode])
 	noCodec := func(what string) {
+		if w.mode == "C06" {
+			return
+		}
 		w.r.Violation(rule0, key, "", "an object schema with declared properties stands at "+what+", which has no generated JSON codec: encoding/json's default struct coding is used — Go field names instead of the declared property names on encode, required properties not enforced and optional (Maybe[T]) properties not decodable on decode")
 	}
 	n, ok := types.Unalias(t).(*types.Named)
@@ -420,6 +434,23 @@ func (w *shapeWalker) object(t types.Type, s *openapi3.Schema, key, where string
 	os := effectiveObject(s)
 	pos := w.s3.pos(o.WDecl.Pos())
 	var problems []string
+	if w.mode == "C06" {
+		// only descend: C06 uses the walk to reach oneOf positions
+		for _, wr := range o.Writer {
+			switch wr.Kind {
+			case "prop":
+				w.visit(wr.Field.Type(), os.props[wr.Key], where+"."+wr.Key)
+			}
+		}
+		ei := 0
+		for _, wr := range o.Writer {
+			if wr.Kind == "embedded" && ei < len(os.embedded) {
+				w.visit(wr.Field.Type(), os.embedded[ei], where+".allOf["+fmt.Sprint(ei)+"]")
+				ei++
+			}
+		}
+		return
+	}
 	if w.mode == "C07" {
 		gotKeys := map[string]JSONWriteRow{}
 		var gotEmb []JSONWriteRow
@@ -562,21 +593,22 @@ func unwrapInner(t types.Type) types.Type {
 }
 
 func (w *shapeWalker) oneOf(t types.Type, s *openapi3.Schema, key string) {
-	if w.mode != "C08" {
+	if w.mode != "C08" && w.mode != "C06" {
 		return
 	}
+	ruleName := map[string]string{"C08": "C08/oneof", "C06": "C06/oneof-arms"}[w.mode]
 	n, ok := types.Unalias(t).(*types.Named)
 	if !ok {
 		return
 	}
 	oo := w.jp.OneOfs[n.Obj().Name()]
 	if oo == nil {
-		w.r.Undecided("C08/oneof", key, "", "no oneOf decoder found for type "+n.Obj().Name())
+		w.r.Undecided(ruleName, key, "", "no oneOf decoder found for type "+n.Obj().Name())
 		return
 	}
 	pos := w.s3.pos(oo.Decl.Pos())
 	if len(oo.Undecided) > 0 {
-		w.r.Undecided("C08/oneof", key, pos, strings.Join(oo.Undecided, "; "))
+		w.r.Undecided(ruleName, key, pos, strings.Join(oo.Undecided, "; "))
 		return
 	}
 	var problems []string
@@ -621,9 +653,9 @@ func (w *shapeWalker) oneOf(t types.Type, s *openapi3.Schema, key string) {
 	}
 	if len(problems) > 0 {
 		sort.Strings(problems)
-		w.r.Violation("C08/oneof", key+" ("+n.Obj().Name()+")", pos, strings.Join(problems, "; "))
+		w.r.Violation(ruleName, key+" ("+n.Obj().Name()+")", pos, strings.Join(problems, "; "))
 	} else {
-		w.r.OK("C08/oneof", key+" ("+n.Obj().Name()+")", pos, "")
+		w.r.OK(ruleName, key+" ("+n.Obj().Name()+")", pos, "")
 	}
 }
 
@@ -645,12 +677,12 @@ func (w *shapeWalker) roots() (nBodies int) {
 			switch {
 			case mt != nil && pm != nil && pm.Body == "json":
 				nBodies++
-				w.r.OK(w.rule("body-sites"), p.Name+":"+where+":request body", w.s3.pos(pm.Decl.Pos()), "decoded with json.NewDecoder(r.Body).Decode(&params.Body), error returned")
+				w.bodySite(true, p.Name+":"+where+":request body", w.s3.pos(pm.Decl.Pos()), "decoded with json.NewDecoder(r.Body).Decode(&params.Body), error returned")
 				w.visit(pm.BodyType, mt.Schema, where+" request")
 			case mt != nil && pm != nil && len(pm.Undecided) == 0:
-				w.r.Violation(w.rule("body-sites"), p.Name+":"+where+":request body", w.s3.pos(pm.Decl.Pos()), "the operation declares an application/json request body but the parser does not decode it (body kind "+pm.Body+")")
+				w.bodySite(false, p.Name+":"+where+":request body", w.s3.pos(pm.Decl.Pos()), "the operation declares an application/json request body but the parser does not decode it (body kind "+pm.Body+")")
 			case mt == nil && pm != nil && pm.Body == "json":
-				w.r.Violation(w.rule("body-sites"), p.Name+":"+where+":request body", w.s3.pos(pm.Decl.Pos()), "the parser decodes a JSON body the operation does not declare")
+				w.bodySite(false, p.Name+":"+where+":request body", w.s3.pos(pm.Decl.Pos()), "the parser decodes a JSON body the operation does not declare")
 			}
 		}
 		// response bodies
@@ -668,7 +700,7 @@ func (w *shapeWalker) roots() (nBodies int) {
 						continue
 					}
 					nBodies++
-					w.r.OK(w.rule("body-sites"), p.Name+":"+where+":response "+ro.Status, w.s3.pos(im.W.Decl.Pos()), "written with writeJSON(w, r.Body)")
+					w.bodySite(true, p.Name+":"+where+":response "+ro.Status, w.s3.pos(im.W.Decl.Pos()), "written with writeJSON(w, r.Body)")
 					w.visit(im.W.BodyType, mt.Schema, where+" response "+ro.Status)
 				}
 			}
@@ -728,4 +760,15 @@ func runC08(r *Report) {
 	r.Analysed["json_body_sites"] = nBodies
 	r.FloorMin("schema positions visited", nPos, 300)
 	r.FloorMin("JSON body sites", nBodies, 60)
+}
+
+func (w *shapeWalker) bodySite(ok bool, key, pos, detail string) {
+	if w.mode == "C06" {
+		return
+	}
+	if ok {
+		w.r.OK(w.rule("body-sites"), key, pos, detail)
+	} else {
+		w.r.Violation(w.rule("body-sites"), key, pos, detail)
+	}
 }
